@@ -273,6 +273,29 @@ func (env *Env) eval(x Expr) (*Val, error) {
 			return nil, fmt.Errorf("bad array update %s", exprString(x))
 		}
 		return &Val{L: []Sc{{"(store " + a.L[0].T + " " + i.L[0].T + " " + v.L[0].T + ")", a.L[0].S}}}, nil
+	case *ESlice:
+		a, err := env.eval(x.X)
+		if err != nil {
+			return nil, err
+		}
+		if a.T == nil || len(a.L) != 4 {
+			return nil, fmt.Errorf("slice expression on a non-slice value %s", exprString(x.X))
+		}
+		if _, ok := a.T.Underlying().(*types.Slice); !ok {
+			return nil, fmt.Errorf("slice expression on a non-slice value %s", exprString(x.X))
+		}
+		lo, hi := "0", a.L[2].T
+		if x.Lo != nil {
+			if lo, err = env.evalInt(x.Lo); err != nil {
+				return nil, err
+			}
+		}
+		if x.Hi != nil {
+			if hi, err = env.evalInt(x.Hi); err != nil {
+				return nil, err
+			}
+		}
+		return &Val{T: a.T, L: []Sc{a.L[0], {addT(a.L[1].T, lo), "Int"}, {"(- " + hi + " " + lo + ")", "Int"}, {"(- " + a.L[3].T + " " + lo + ")", "Int"}}}, nil
 	case *EQuant:
 		n := *env
 		n.vars = copyVals(env.vars)
@@ -291,9 +314,11 @@ func (env *Env) eval(x Expr) (*Val, error) {
 		nq := len(e.qbound)
 		for _, v := range x.Vars {
 			e.qbound = append(e.qbound, n.vars[v.Name].L[0].T)
+			e.qscope = append(e.qscope, [2]string{n.vars[v.Name].L[0].T, n.vars[v.Name].L[0].S})
 		}
 		b, err := n.evalBool(x.Body)
 		e.qbound = e.qbound[:nq]
+		e.qscope = e.qscope[:len(e.qscope)-len(x.Vars)]
 		if err != nil {
 			return nil, err
 		}
@@ -1370,7 +1395,9 @@ func (e *Enc) bseqTerm(arr, off, ln string) string {
 	if e.bseqSeen == nil {
 		e.bseqSeen = map[string]bool{}
 	}
-	if e.bseqSeen[t] {
+	if e.bseqSeen[t] || len(e.boundIn(t)) > 0 {
+		// (no instance facts for windows that mention a quantified variable: they would have to be asserted as
+		// quantified facts, which costs the solvers more than it helps)
 		return t
 	}
 	e.bseqSeen[t] = true
